@@ -264,3 +264,17 @@ def lp_envelope(h, wire, token, data, cx):
     return And(Eq(wire.length, 1 + tlsize(inner) + inner), wire.at(h, 0) == 0x64, tlenc_at(h, wire, 1, inner),
                wire.at(h, p0) == 0x62, tlenc_at(h, wire, p0 + 1, tl), bytes_equal(h, wire, p1, cx.old_heap, token, 0, tl),
                wire.at(h, p2) == 0x50, tlenc_at(h, wire, p2 + 1, dl), bytes_equal(h, wire, p3, h, data, 0, dl))
+
+
+on_interest.post_assumed = lambda c, cx, result, **p: {}
+
+
+_orig_result = on_interest.result
+
+
+def _oi_result(c, cx, **p):
+    cx.run.ghost.setdefault('recv.on_interest_calls', []).append(p)
+    return None
+
+
+on_interest.result = _oi_result
